@@ -126,6 +126,10 @@ func FindStreamTokens(data []byte) (state, callState []byte) {
 	r := bytes.NewReader(data)
 	for r.Len() > 0 {
 		before := r.Len()
+		// Bound the stream about to be opened; see checkIPCStreamFraming.
+		if _, ferr := checkIPCStreamFraming(data[len(data)-before:]); ferr != nil {
+			return state, callState
+		}
 		s, c, err := scanStreamForTokens(r)
 		if state == nil {
 			state = s
@@ -184,6 +188,9 @@ func scanStreamForTokens(r io.Reader) (state, callState []byte, err error) {
 // sees the originating client's version. A request that never carried one
 // is structurally exempt from the check.
 func FindProtocolVersion(data []byte) string {
+	if _, err := checkIPCStreamFraming(data); err != nil {
+		return ""
+	}
 	reader, err := ipc.NewReader(bytes.NewReader(data))
 	if err != nil {
 		return ""
@@ -223,6 +230,9 @@ func ReadUnaryResult(data []byte) (schema *arrow.Schema, result []byte, ok bool)
 			schema, result, ok = nil, nil, false
 		}
 	}()
+	if _, err := checkIPCStreamFraming(data); err != nil {
+		return nil, nil, false
+	}
 	reader, err := ipc.NewReader(bytes.NewReader(data))
 	if err != nil {
 		return nil, nil, false
